@@ -30,7 +30,7 @@
                 create_energy N rate eru distance du         : res (N * energy_unit)
      bases      base_distance_unit base_time_unit base_speed_unit
      associated speed_time_unit speed_distance_unit energy_rate_distance_unit energy_rate_energy_unit *)
-From Coq Require Import ZArith String List Bool.
+From Coq Require Import ZArith QArith String List Bool.
 From RC Require Import Base.Num Base.Res Gen.UnitTables.
 Import ListNotations.
 
@@ -249,5 +249,22 @@ Definition create_energy (N : Num) (rate : N) (eru : energy_rate_unit) (distance
     : res (N * energy_unit) :=
   let calc_distance := convert_distance N du (energy_rate_distance_unit eru) distance in
   Ok (mul rate calc_distance, energy_rate_energy_unit eru).
+
+(* ---- exact (rational) reading of the generated table --------------------------------------------
+   Every arm is multiplication by one constant: `*value` by 1, `*value * k` by k, `*value / k` by 1/k.
+   [k_dist u v] ... [k_weight u v] are these constants for the arm (u, v) of the regenerated table;
+   Proofs/Units.v proves  convert_<family> QN u v x == x * k_<family> u v. *)
+Definition conv_factor (c : conv) : Q :=
+  match c with
+  | Id => 1%Q
+  | Mul m e => Qlit m e
+  | Div m e => Qinv (Qlit m e)
+  end.
+Definition k_dist (u v : dist_unit) : Q := conv_factor (conv_of distance_table (dist_name u) (dist_name v)).
+Definition k_time (u v : time_unit) : Q := conv_factor (conv_of time_table (time_name u) (time_name v)).
+Definition k_speed (u v : speed_unit) : Q := conv_factor (conv_of speed_table (speed_name u) (speed_name v)).
+Definition k_energy (u v : energy_unit) : Q := conv_factor (conv_of energy_table (energy_name u) (energy_name v)).
+Definition k_grade (u v : grade_unit) : Q := conv_factor (conv_of grade_table (grade_name u) (grade_name v)).
+Definition k_weight (u v : weight_unit) : Q := conv_factor (conv_of weight_table (weight_name u) (weight_name v)).
 
 End Units.
